@@ -39,7 +39,7 @@ VARIABLES l, grp
 vars == <<l, grp>>
 
 \* grp: the normalised token sequence and verdict of the first variant of the current layout group
-NoGrp == [id |-> -1, toks |-> <<>>, ok |-> FALSE]
+NoGrp == [id |-> -1, toks |-> <<>>, ok |-> FALSE, rl |-> <<>>, tl |-> <<>>]
 
 Init == l = 1 /\ grp = NoGrp
 
@@ -118,10 +118,16 @@ Check(r) ==
          ELSE TRUE
       /\ IF r.group = 0 THEN UNCHANGED grp
          ELSE LET n == Normal(all)
-              IN  IF grp.id # r.group THEN grp' = [id |-> r.group, toks |-> n, ok |-> r.res = "ok"]
+                  \* the crate's own row lines, and where the printer put the rows
+                  rl == IF r.res = "ok" THEN RowLines(r.dump.stmts) ELSE <<>>
+                  Delta(xs, ys) == [j \in DOMAIN xs |-> xs[j] - ys[j]]
+              IN  IF grp.id # r.group THEN grp' = [id |-> r.group, toks |-> n, ok |-> r.res = "ok", rl |-> rl, tl |-> r.row_lines]
                   ELSE /\ UNCHANGED grp
                        /\ IF n # grp.toks THEN Flag(r, "layout.tokens")
                           ELSE IF (r.res = "ok") # grp.ok THEN Flag(r, "layout.verdict")
+                          \* `line` shifts by exactly the number of lines inserted above the row
+                          ELSE IF r.res = "ok" /\ r.has_truth /\ Len(rl) = Len(grp.rl) /\ Len(r.row_lines) = Len(grp.tl) /\ Len(rl) = Len(r.row_lines)
+                                  /\ Delta(rl, grp.rl) # Delta(r.row_lines, grp.tl) THEN Flag(r, "layout.lines")
                           ELSE TRUE
 
 Step ==
